@@ -170,6 +170,16 @@ def check_program(p, cfg, root):
         if recmap['make'][k] != recmap['ninja'][k]:
             viol.append(('step-differs', 'step %r: make runs %r, ninja runs %r'
                          % (k, recmap['make'][k], recmap['ninja'][k])))
+    # (2b) an immediately repeated build runs the same steps under both tools
+    again = {}
+    for backend, pr in prs.items():
+        rc, out, recs = pr.run(goals)
+        n += 1
+        again[backend] = set(step_table(pr, recs)) if rc == 0 else 'FAILED'
+    if again['make'] != again['ninja']:
+        viol.append(('repeated-build', 'a second build re-ran %r under make, %r under ninja'
+                     % (sorted(map(str, again['make'])) if isinstance(again['make'], set) else again['make'],
+                        sorted(map(str, again['ninja'])) if isinstance(again['ninja'], set) else again['ninja'])))
     # (3) rebuild sets after modifying each source
     snaps = {b: os.path.join(root, 'snap-' + b) for b in prs}
     for b in prs:
